@@ -54,4 +54,43 @@ pub(crate) mod kani_gf2 {
         add_assign_binary(&mut buf[0..4], &src[0..3]);
         assert!(false, "MARKER C16 add_assign_binary accepted a src shorter than dest");
     }
+
+    // util::get_both_ranges (the other assumed contract of V-DENSE's add_assign_rows): the two results are the windows [i, i+len) and
+    // [j, j+len) of the vector, in that order, and writes through them land exactly there. BOUNDED: a vector of 8 words; i, j, len symbolic.
+    #[kani::proof]
+    #[kani::unwind(10)]
+    pub(crate) fn get_both_ranges_are_the_two_disjoint_windows() {
+        let mut v: [u64; 8] = kani::any();
+        let before = v;
+        let i: usize = kani::any();
+        let j: usize = kani::any();
+        let len: usize = kani::any();
+        // the precondition of the contract V-DENSE assumes (i != j is implied for len >= 1; the function debug-asserts it)
+        kani::assume(i <= 8 && j <= 8 && len <= 8 && i + len <= 8 && j + len <= 8 && (i + len <= j || j + len <= i) && i != j);
+        let a: u64 = kani::any();
+        let b: u64 = kani::any();
+        {
+            let (r0, r1) = crate::util::get_both_ranges(&mut v[..], i, j, len);
+            assert!(r0.len() == len && r1.len() == len, "C16 get_both_ranges: both windows have len elements");
+            let mut k = 0;
+            while k < len {
+                assert!(r0[k] == before[i + k] && r1[k] == before[j + k], "C16 get_both_ranges: first window starts at i, second at j");
+                r0[k] = a.wrapping_add(k as u64);
+                r1[k] = b.wrapping_add(k as u64);
+                k += 1;
+            }
+        }
+        let mut k = 0;
+        while k < 8 {
+            if k >= i && k < i + len {
+                assert!(v[k] == a.wrapping_add((k - i) as u64), "C16 get_both_ranges: writes through the first window land at i..i+len");
+            } else if k >= j && k < j + len {
+                assert!(v[k] == b.wrapping_add((k - j) as u64), "C16 get_both_ranges: writes through the second window land at j..j+len");
+            } else {
+                assert!(v[k] == before[k], "C16 get_both_ranges: nothing outside the two windows changes");
+            }
+            k += 1;
+        }
+        kani::cover!(len == 3 && i == 5 && j == 1, "reach");
+    }
 }
